@@ -108,4 +108,20 @@ def pyStop (dim : Nat) (e : Option Int) (s : Int) : Int :=
 def inRange (start stop step : Int) (j : Nat) : Prop :=
   if 0 < step then start + step * j < stop else start + step * j > stop
 
+/-! #### SegmentCumSum (documentation of `Graph::segment_cumsum`) -/
+
+/-- the documented iteration `output[0] = v`, `output[i] = A[i-1] + B[i-1] * output[i-1]`
+    in the integers, for one position of the row -/
+def segIter (a : Nat → Int) (b : Nat → Nat) (v : Int) : Nat → Int
+  | 0 => v
+  | i + 1 => a i + (b i : Int) * segIter a b v i
+
+/-- `segment_cumsum(A, B, v)`: row `i` of the result at row position `J`, modulo 2^w -/
+def segmentCumSum (st : ST) (A : Tensor) (B : Nat → Nat) (V : Tensor) : Tensor
+  | [] => 0
+  | i :: J => st.ofInt (segIter (fun k => st.toInt (A (k :: J))) B (st.toInt (V J)) i)
+
+/-- `Σ_{s ≤ k < i} a k` -/
+def sumFrom (s i : Nat) (a : Nat → Int) : Int := (((List.range i).filter (s ≤ ·)).map a).sum
+
 end CCV.Spec
